@@ -962,6 +962,16 @@ def run(tier):
     chk.guard(rule_r6, chk, prog)
     chk.guard(rule_r7, chk, prog)
     chk.guard(rule_r8, chk, prog)
+    # the golden records the predicate dereferences exist before the first
+    # candidate is judged - under --unchecked as well (shared with C10.R5)
+    from . import c10
+    sub10 = Check('C10', 'other', tier, [], [])
+    chk.guard(c10.rule_r5, sub10, prog)
+    chk.adopt('C09.R9', 'every strategy call is dominated by the golden '
+              'runs: check() compares with the golden record on every path, '
+              'a missing record turns each comparison into an exception that '
+              'the workers report as "rejected" (shared with C10.R5)',
+              sub10)
     extra = None
     if tier == 'thorough':
         from .. import selftest
